@@ -52,11 +52,8 @@ def has_lang(config, language):
 
 def pick(config, language, key, default):
     """Documented precedence: <language>.<key>  over  <key>  over  the built-in default."""
-    if has_lang(config, language) and key in config[language]:
-        return config[language][key]
-    if key in config:
-        return config[key]
-    return default
+    return (config[language][key] if has_lang(config, language) and key in config[language]
+            else (config[key] if key in config else default))
 
 
 def lang_is_dict(config, language):
@@ -590,3 +587,62 @@ class StringlyFromDict:
             and result.min_values_for_enum == pick(config, language, "min_values_for_enum", 2) \
             and result.max_values_for_enum == pick(config, language, "max_values_for_enum", 6) \
             and result.require_cross_file == pick(config, language, "require_cross_file", True)
+
+
+# =================================================================== linter_utils: metadata access and the generic loader
+from pyvc.api import ClassOf, uf  # noqa: E402
+
+LintCtxT = Rec("LintContext", cls="src/core/base.py::BaseLintContext", file_path=Opt(PathT), file_content=Opt(Str),
+               language=Str, metadata=Any)
+GenericCfgT = Rec("LinterConfig", enabled=Bool, key=Int)  # `key`: ghost identity of the configuration object
+ConfigClassT = ClassOf(LU + "ConfigProtocol")
+cfg_from = uf("cfg_from", [Dict, Opt(Str)], GenericCfgT)         # config_class.from_dict(section, language=language)
+
+
+def metadata_of(context):
+    """The rule-visible configuration: context.metadata when it is a dict, else empty."""
+    return dict(context.metadata) if isinstance(context.metadata, dict) else {}
+
+
+@contract(LU + "get_metadata", props=["C05"], types=dict(context=LintCtxT, metadata=Any), returns=Dict)
+class GetMetadata:
+    def value(context):
+        return metadata_of(context)
+
+
+@contract(LU + "get_metadata_value", props=["C05"], types=dict(context=LintCtxT, key=Str, default=Any), returns=Any)
+class GetMetadataValue:
+    def value(context, key, default):
+        return metadata_of(context).get(key, default)
+
+
+@contract(LU + "get_language", props=["C05"], types=dict(context=LintCtxT), returns=Opt(Str))
+class GetLanguage:
+    def value(context):
+        return context.language
+
+
+@contract(LU + "ConfigProtocol.from_dict", props=["C05"], types=dict(config_dict=Dict, language=Opt(Str)), returns=GenericCfgT,
+          raises=["ValueError", "TypeError"],
+          assumed="protocol method: stands for the from_dict of ANY linter config class (each concrete one has its own "
+                  "contract above); may raise ValueError (invalid value) or TypeError (no `language` parameter)")
+class ProtocolFromDict:
+    def value(config_dict, language):
+        return cfg_from(config_dict, language)
+
+
+def section_of(context, config_key):
+    return metadata_of(context).get(config_key, {})
+
+
+@contract(LU + "load_linter_config", props=["C05"],
+          types=dict(context=LintCtxT, config_key=Str, config_class=ConfigClassT, config_dict=Any), returns=GenericCfgT,
+          raises=["ValueError", "TypeError"])
+class LoadLinterConfig:
+    """The ONLY section consulted is metadata[config_key]; when it is a dict the result is the class's from_dict of that
+    section and the file's language (ValueError propagates); any other value silently yields the default config."""
+
+    def ensures_from_dict_of_the_section(context, config_key, config_class, result):
+        return implies(isinstance(section_of(context, config_key), dict),
+                       result == cfg_from(section_of(context, config_key), context.language)
+                       or result == cfg_from(section_of(context, config_key), None))  # fallback: class without `language`
